@@ -1,3 +1,4 @@
+import AsmjitVerif.Model.Arena
 /-
 C16 — executable model of the reset / reinit / attach / detach machinery of `CodeHolder` and of the x86 emitters
 (`asmjit/core/codeholder.cpp`, `emitter.cpp`, `assembler.cpp`, `builder.cpp`, `compiler.cpp`, `x86/x86assembler.cpp`,
@@ -15,6 +16,7 @@ allocator, constant pools, the address table, cross-section fixups (`CodeHolder:
 The model follows the code *with* fixes C16-1 (`BaseCompiler_clear` resets `_jump_annotations`) and C16-2
 (`CodeHolder::new_section` zeroes the section name).
 -/
+deriving instance DecidableEq for AsmjitVerif.Arena.State
 namespace AsmjitVerif.Reuse
 
 inductive Kind where
@@ -87,8 +89,9 @@ structure Holder where
   -- state that is allowed to depend on history / configuration (never part of the output)
   logger : Bool := false           -- `_logger != nullptr`
   textCap : Bool := false          -- `.text` keeps its buffer over a soft reset
-  arenaAllocs : Nat := 0           -- arena requests since the last arena reset (abstract)
-  arenaRetained : Nat := 0         -- what a soft reset keeps for reuse (abstract)
+  -- `_arena` (`Arena(16 KiB, static_arena_memory)`): Model/Arena.lean, the line-by-line model of arena.cpp (C18);
+  -- request sizes below are nominal 64-bit object sizes - what matters here is *that* the arena is used and reset
+  arena : Arena.State := Arena.init 16384 0
   deriving DecidableEq, Repr
 
 /-- `BaseEmitter` + `BaseAssembler` / `BaseBuilder` / `BaseCompiler` members of one emitter -/
@@ -134,6 +137,9 @@ def World.fresh : World := {}
 /-- freshly constructed objects with the AArch64 emitters (`a64::Assembler` x2, `a64::Builder`, `a64::Compiler`) -/
 def World.freshA64 : World :=
   { es := [{ kind := .asm, fam64 := true }, { kind := .asm, fam64 := true }, { kind := .bld, fam64 := true }, { kind := .cmp, fam64 := true }] }
+
+/-- the same objects with the holder constructed over `staticSize` bytes of caller-provided arena memory (0 = none) -/
+def World.withArena (w : World) (staticSize : Nat) : World := { w with h := { w.h with arena := Arena.init 16384 staticSize } }
 
 /-- does an emitter of this family accept a holder of this architecture (`arch_mask & (1 << arch)`) -/
 def archOk (fam64 : Bool) : Option Arch → Bool
@@ -236,13 +242,15 @@ def Emitter.onReinit (e : Emitter) : Emitter :=
 
 /-! ### CodeHolder: init / reset / reinit / attach / detach -/
 
+/-- one arena request (`alloc_oneshot`); the outcome never reaches the output (no out-of-memory in the model: `mallocMax` is 2^40) -/
+def Holder.alloc (h : Holder) (bytes : Nat) : Holder := { h with arena := (Arena.allocOneshot h.arena bytes).1 }
+
 /-- `CodeHolder_reset_sections_and_containers` (+ arena) -/
 def Holder.resetContainers (h : Holder) (hard : Bool) : Holder :=
   { h with
     secs := [], labels := [], relocs := [], unres := 0
     textCap := !hard && h.textCap
-    arenaRetained := if hard then 0 else max h.arenaRetained h.arenaAllocs
-    arenaAllocs := 0 }
+    arena := Arena.reset h.arena hard }
 
 /-- walk the attachment list and apply an event handler to every emitter on it
     (`CodeHolder_detach_emitters`, the loop of `CodeHolder::reinit`, `CodeHolder_on_settings_updated`) -/
@@ -257,7 +265,7 @@ def settingsAll (lg : Bool) (es : List Emitter) (att : List Nat) : List Emitter 
 /-- `CodeHolder::init` -/
 def World.init (w : World) (a : Arch) : World × String :=
   if w.h.arch.isSome then (w, "AlreadyInitialized")
-  else ({ w with h := { w.h with arch := some a, secs := [textSection], arenaAllocs := w.h.arenaAllocs + 2 } }, "ok")
+  else ({ w with h := ({ w.h with arch := some a, secs := [textSection] } : Holder).alloc 64 }, "ok")
 
 /-- `CodeHolder::reset` -/
 def World.reset (w : World) (hard : Bool) : World :=
@@ -271,7 +279,7 @@ def World.reinit (w : World) : World × String :=
   if w.h.arch.isNone then (w, "NotInitialized")
   else
     let h := w.h.resetContainers false
-    ({ h := { h with secs := [textSection], arenaAllocs := 2 }, es := reinitAll w.es w.h.attached }, "ok")
+    ({ h := ({ h with secs := [textSection] } : Holder).alloc 64, es := reinitAll w.es w.h.attached }, "ok")
 
 /-- `CodeHolder::attach` -/
 def World.attach (w : World) (i : Nat) : World × String :=
@@ -345,6 +353,9 @@ def Holder.bindLabel (h : Holder) (id toSec toOff : Nat) : Holder × String :=
   | some le =>
     if toSec ≥ h.secs.length then (h, "InvalidSection")
     else if le.bound.isSome then (h, "LabelAlreadyBound")
+    -- validate before anything is modified: bind_label() either succeeds or changes nothing
+    else if le.fixups.any (fun f => f.reloc.isNone && f.sec == toSec &&
+        (encodeFixup f.a64b ((toOff : Int) - (f.off : Int) + f.rel) f.size).isNone) then (h, "InvalidDisplacement")
     else
       let h := { h with labels := updAt h.labels id fun l => { l with bound := some (toSec, toOff), fixups := [] } }
       let (h, n, _, err) := resolveFixups h toSec toOff le.fixups
@@ -356,8 +367,7 @@ def asmBind (h : Holder) (c : Cur) (id : Nat) : Holder × Cur × String :=
   (h, { c with cmt := false }, err)
 
 def Holder.addFixup (h : Holder) (id : Nat) (f : Fixup) : Holder :=
-  { h with labels := updAt h.labels id (fun l => { l with fixups := f :: l.fixups }), unres := h.unres + 1,
-           arenaAllocs := h.arenaAllocs + 1 }
+  ({ h with labels := updAt h.labels id (fun l => { l with fixups := f :: l.fixups }), unres := h.unres + 1 } : Holder).alloc 40
 
 /-- `x86::Assembler::_emit(kIdJmp, label)` (`EmitJmpCall`, `EmitJmpCallRel`, `EmitRel`); every exit resets the
     one-shot state -/
@@ -417,7 +427,7 @@ def asmElabelSz (h : Holder) (c : Cur) (id size : Nat) : Holder × Cur × String
     else
       let rid := h.relocs.length
       let re : Reloc := { rtype := 4, srcSec := c.sec, srcOff := c.off, tgtSec := none, payload := 0, size := size }
-      let h := { h with arenaAllocs := h.arenaAllocs + 2 }
+      let h := h.alloc 48
       let h :=
         match le.bound with
         | some (s, o) => { h with relocs := h.relocs ++ [{ re with tgtSec := some s, payload := o }] }
@@ -436,20 +446,20 @@ def asmSwitch (h : Holder) (c : Cur) (s : Nat) : Holder × Cur × String :=
 /-- `CodeHolder::new_label_id` / `new_named_label_id` (global labels; duplicates refused) -/
 def Holder.newLabel (h : Holder) (name : List Nat) : Holder × Option Nat :=
   if name.isEmpty then
-    ({ h with labels := h.labels ++ [{ ltype := 0, name := [], bound := none, fixups := [] }], arenaAllocs := h.arenaAllocs + 1 },
+    (({ h with labels := h.labels ++ [{ ltype := 0, name := [], bound := none, fixups := [] }] } : Holder).alloc 16,
      some h.labels.length)
   else if name.length > 2048 then (h, none)
   else if h.labels.any (fun l => l.name == name) then (h, none)
   else
-    ({ h with labels := h.labels ++ [{ ltype := 2, name := name, bound := none, fixups := [] }], arenaAllocs := h.arenaAllocs + 2 },
+    (({ h with labels := h.labels ++ [{ ltype := 2, name := name, bound := none, fixups := [] }] } : Holder).alloc (64 + name.length),
      some h.labels.length)
 
 /-- `CodeHolder::new_section(name, flags none, alignment 8, order 0)` -/
 def Holder.newSection (h : Holder) (name : List Nat) : Holder × Option Nat :=
   if name.length > 35 then (h, none)
   else
-    ({ h with secs := h.secs ++ [{ name := name, flags := 0, align := 8, order := 0, hasOffset := false, bytes := [] }],
-              arenaAllocs := h.arenaAllocs + 3 }, some h.secs.length)
+    (({ h with secs := h.secs ++ [{ name := name, flags := 0, align := 8, order := 0, hasOffset := false, bytes := [] }] } : Holder).alloc 104,
+     some h.secs.length)
 
 /-! ### Builder / Compiler node list -/
 
@@ -500,7 +510,7 @@ def serialize (h : Holder) (c : Cur) : List Node → Holder × Cur × String
 /-! ### operations of the protocol -/
 
 inductive Op where
-  | world (a64 : Bool)
+  | world (a64 : Bool) (staticSize : Nat)
   | init (a : Arch)
   | reset (hard : Bool)
   | reinit
@@ -599,7 +609,7 @@ def World.genAttached (w : World) (i : Nat) (e : Emitter) : Op → World × Stri
 /-- the whole step function: answer line for every operation -/
 def World.step (w : World) (op : Op) : World × String :=
   match op with
-  | .world a64 => (if a64 then World.freshA64 else World.fresh, "ok")
+  | .world a64 st => ((if a64 then World.freshA64 else World.fresh).withArena st, "ok")
   | .init a => w.init a
   | .reset hard => (w.reset hard, "ok")
   | .reinit => w.reinit
